@@ -16,7 +16,16 @@ function is written:
   * module-level numeric constants are inlined by value; attribute / index access on an opaque parameter
     yields a structured atom (`p.mu`, `p[0]`; a namedtuple field list makes `p[0]` and `p.mu` the same atom);
   * vector parameters: `v@v`, dot(v, v), sum(v*v), sum(v**2), norm(v) are expressed through one norm atom;
-  * a chosen set of project functions can be kept *symbolic* (uninterpreted, canonicalised applications).
+  * a chosen set of project functions can be kept *symbolic* (uninterpreted, canonicalised applications);
+  * index dispatch: lax.switch(index, branches, *operands) and literal_sequence[index] where every value of the index is
+    an integer literal selected by understood predicates (nested where, mask arithmetic); the index is clamped for switch;
+  * helper classes of the project (also in private helper modules) are instantiated symbolically (`ObjVal`): explicit
+    straight-line `__init__` (self.attr = value), typing.NamedTuple / @dataclass field lists with defaults, namedtuple
+    factories, stateless classes; attribute access, bound / static / class methods, properties, `__call__`, tuple
+    behaviour of NamedTuples (index, unpacking, _replace), module-level singleton instances whose state cannot change.
+    Anything that could change an instance after construction (attribute stores outside the constructor, bare calls that
+    reach an instance, metaclasses, foreign bases, __new__ / __post_init__, control flow in the constructor) is *not
+    understood*: the call stays an opaque atom and the rule reports analysis-incomplete.
 
 Besides the exact real value every piece carries a floating-point *trace term*: the expression tree with only
 those simplifications applied that are exact in IEEE arithmetic (selection, negation, multiplication by +-1,
@@ -143,10 +152,30 @@ class TupleVal:
 
 
 class FuncRef:
-    """A callable known by its source: module-level function, nested def or lambda (+ defining environment)."""
-    def __init__(self, scope, env=None):
+    """A callable known by its source: module-level function, nested def or lambda (+ defining environment);
+    `bound` = leading arguments already supplied (the instance of a bound method, the class of a classmethod)."""
+    def __init__(self, scope, env=None, bound=()):
         self.scope = scope
         self.env = env
+        self.bound = tuple(bound)
+
+
+class ClassRef:
+    """A project class known by its source (`scope`), or a collections.namedtuple factory (`nt` = its field layout)."""
+    def __init__(self, scope=None, nt=None):
+        self.scope = scope
+        self.nt = nt
+
+
+class ObjVal:
+    """A symbolically constructed instance of a project helper class: its fields (in definition order) hold interpreter
+    values; methods are looked up in the class source and applied with `self` = this instance.  `tuple_like`: the fields
+    are also the items of the instance (NamedTuple / namedtuple).  `open_`: still inside its constructor (fields may be set)."""
+    def __init__(self, cls, fields=None, tuple_like=False):
+        self.cls = cls
+        self.fields = dict(fields or {})
+        self.tuple_like = tuple_like
+        self.open_ = False
 
 
 class Env(dict):
@@ -383,6 +412,43 @@ class SymEval(PiecewiseEval):
             return v
         raise NotPolynomial("truth value expected")
 
+    def _int_pieces(self, v):
+        """[(conds, k)] when every value `v` takes is an integer literal (a branch index built by where / masks), else None"""
+        if isinstance(v, BoolVal):
+            return None             # a truth value is not an integer index (lax.switch rejects it)
+        try:
+            v = self._as_pw(v)
+        except NotPolynomial:
+            return None
+        out = []
+        for p in v.pieces:
+            if not (p.value.n.is_const() and p.value.d.is_const()):
+                return None
+            c = Fraction(p.value.n.const_value()) / Fraction(p.value.d.const_value()) if p.value.n.t else Fraction(0)
+            if c.denominator != 1:
+                return None
+            out.append((p.conds, int(c)))
+        return out
+
+    def _dispatch(self, idx, branch):
+        """the value that is `branch(k)` where the index pieces say k (selection only: traces are those of the branches)"""
+        memo = {}
+        for (_, k) in idx:
+            if k not in memo:
+                memo[k] = branch(k)
+        if any(isinstance(r, TupleVal) for r in memo.values()):
+            rs = list(memo.values())
+            if not all(isinstance(r, TupleVal) and len(r.items) == len(rs[0].items) for r in rs):
+                raise NotPolynomial("selection between values of different shape")
+            return TupleVal([self._dispatch(idx, lambda k, i=i: memo[k].items[i]) for i in range(len(rs[0].items))])
+        out = []
+        for (conds, k) in idx:
+            for p in self._as_pw(memo[k]).pieces:
+                m = self._clean(_merge(conds, p.conds))
+                if m is not None:
+                    out.append(TPiece(m, p.value, p.term))
+        return PW(out)
+
     # ---------------------------------------------------------------- comparisons
     def compare(self, l, opn, r):
         l, r = self._as_pw(l), self._as_pw(r)
@@ -511,10 +577,229 @@ class SymEval(PiecewiseEval):
         if c is not None:
             return c
         if scope is not None:
-            fs = [v for v in self.repo.resolve(e, scope) if isinstance(v, FuncVal)]
+            vals = self.repo.resolve(e, scope)
+            fs = [v for v in vals if isinstance(v, FuncVal)]
             if len(fs) == 1:
                 return FuncRef(fs[0].scope, None)
+            if not fs:
+                c = self._class_ref(vals)
+                if c is not None:
+                    return c
+                o = self._module_instance(e.id, scope)
+                if o is not None:
+                    return o
         return self.atom_pw(e.id)
+
+    # ---------------------------------------------------------------- helper classes
+    @staticmethod
+    def _class_ref(vals):
+        """ClassRef when the resolved values denote exactly one project class / one namedtuple layout, else None"""
+        from optilint.model import ClassVal, NamedTupleVal
+        vals = list(vals)
+        if len(vals) != 1:
+            return None
+        v = vals[0]
+        if isinstance(v, ClassVal):
+            return ClassRef(scope=v.scope)
+        if isinstance(v, NamedTupleVal) and not v.ndefaults and all(isinstance(f, str) for f in v.fields):
+            return ClassRef(nt=v)
+        return None
+
+    def _module_instance(self, name, scope, hops=0):
+        """the instance a module-level name is bound to (once, by `NAME = HelperClass(...)`), constructed symbolically"""
+        if scope is None or hops > 4:
+            return None
+        s, bs = self.repo.lookup(name, scope)
+        if s is None:
+            s, bs = self.repo.star_lookup(name, scope.module)
+        if s is None or s.kind != "module" or len(bs) != 1:
+            return None
+        b = bs[0]
+        if b.kind == "assign" and b.index is None and isinstance(b.value, ast.Call):
+            cache = self.__dict__.setdefault("_instances", {})
+            if id(b) not in cache:
+                cache[id(b)] = None
+                try:
+                    cref = self._class_ref(self.repo.resolve(b.value.func, s))
+                    if cref is not None and not self._mutable_state(cref, name):
+                        v = self.ev(b.value, Env(), s)
+                        cache[id(b)] = v if isinstance(v, ObjVal) else None
+                except NotPolynomial:
+                    pass
+            return cache[id(b)]
+        if b.kind == "importfrom":
+            modname, attr, level = b.extra
+            if level:
+                base = b.scope.module.name.rsplit(".", level)[0]
+                modname = base + ("." + modname if modname else "")
+            m = self.repo.modules.get(modname)
+            if m is not None:
+                return self._module_instance(attr, m.scope, hops + 1)
+        return None
+
+    def _mutable_state(self, cref, name):
+        """True when the state of the shared (module-level) instance `name` of this class may change after construction:
+        a method other than __init__ stores into an attribute, or some module stores into `name.attr` / `*.name.attr`"""
+        if cref.scope is not None:
+            for c in self.repo.class_mro(cref.scope):
+                for meth in c.children:
+                    if meth.name == "__init__" or not isinstance(meth.node, (ast.FunctionDef, ast.AsyncFunctionDef)):
+                        continue
+                    for n in ast.walk(meth.node):
+                        if isinstance(n, (ast.Attribute, ast.Subscript)) and isinstance(n.ctx, (ast.Store, ast.Del)):
+                            return True
+                        if isinstance(n, ast.Call) and dotted(n.func) in ("setattr", "object.__setattr__", "delattr"):
+                            return True
+        for m in self.repo.modules.values():
+            for n in ast.walk(m.tree):
+                if isinstance(n, ast.Attribute) and isinstance(n.ctx, (ast.Store, ast.Del)):
+                    v = n.value
+                    if (isinstance(v, ast.Name) and v.id == name) or (isinstance(v, ast.Attribute) and v.attr == name):
+                        return True
+                if isinstance(n, ast.Call) and dotted(n.func) == "setattr":
+                    return True
+        return False
+
+    def _class_layout(self, cls):
+        """(mro, kind) of a project class whose construction is understood: kind = 'init' (explicit __init__ somewhere in the
+        mro), 'namedtuple' (typing.NamedTuple), 'dataclass' or 'plain' (no state).  Anything else (metaclass, foreign base
+        class, __new__, __post_init__, other class decorators) raises NotPolynomial."""
+        from optilint.model import ClassVal
+        mro = self.repo.class_mro(cls)
+        kind = "plain"
+        for c in mro:
+            if c.node.keywords:
+                raise NotPolynomial("class keywords (metaclass) of " + c.qualname)
+            for b in c.node.bases:
+                vs = self.repo.resolve(b, c.parent)
+                if len(vs) == 1 and isinstance(next(iter(vs)), ClassVal):
+                    continue
+                if len(vs) == 1 and isinstance(next(iter(vs)), ExtVal):
+                    nm = next(iter(vs)).name
+                    if nm == "builtins.object":
+                        continue
+                    if nm == "typing.NamedTuple" and c is cls and len(cls.node.bases) == 1:
+                        kind = "namedtuple"
+                        continue
+                raise NotPolynomial("base class of " + c.qualname + " is not understood")
+            for d in c.node.decorator_list:
+                f = d.func if isinstance(d, ast.Call) else d
+                vs = self.repo.resolve(f, c.parent)
+                if len(vs) == 1 and isinstance(next(iter(vs)), ExtVal) and next(iter(vs)).name == "dataclasses.dataclass" \
+                        and c is cls and len(mro) == 1 and not (isinstance(d, ast.Call) and (d.args or any(
+                            k.arg not in ("frozen", "eq", "repr", "order", "slots", "unsafe_hash") for k in d.keywords))):
+                    kind = "dataclass"
+                    continue
+                raise NotPolynomial("class decorator of " + c.qualname + " is not understood")
+            for special in ("__new__", "__post_init__", "__getattr__", "__getattribute__", "__setattr__", "__init_subclass__"):
+                if special in c.bindings:
+                    raise NotPolynomial(f"{special} of {c.qualname}")
+        if any("__init__" in c.bindings for c in mro):
+            if kind != "plain":
+                raise NotPolynomial("__init__ on a record class " + cls.qualname)
+            kind = "init"
+        return mro, kind
+
+    def _method(self, cls, attr):
+        """(function scope, decorator kind) of the method `attr` found first along the mro, else None"""
+        for c in self.repo.class_mro(cls):
+            bs = c.bindings.get(attr)
+            if not bs:
+                continue
+            if len(bs) != 1 or bs[0].kind != "def":
+                raise NotPolynomial(f"class attribute {c.qualname}.{attr} is not a single method")
+            fsc = bs[0].extra
+            decos = [norm_src(d) for d in fsc.node.decorator_list]
+            if not decos:
+                return fsc, "method"
+            if decos in (["staticmethod"], ["classmethod"], ["property"]):
+                return fsc, decos[0]
+            raise NotPolynomial(f"decorated method {fsc.qualname}")
+        return None
+
+    def construct(self, cref: ClassRef, args, kwargs):
+        if cref.nt is not None:
+            fields = list(cref.nt.fields)
+            vals = self._bind_fields(cref.nt.name, fields, {}, args, kwargs)
+            return ObjVal(None, vals, tuple_like=True)
+        cls = cref.scope
+        mro, kind = self._class_layout(cls)
+        if kind in ("namedtuple", "dataclass"):
+            fields, defaults = [], {}
+            for st in cls.node.body:
+                if isinstance(st, ast.AnnAssign) and isinstance(st.target, ast.Name):
+                    if "ClassVar" in norm_src(st.annotation) or "InitVar" in norm_src(st.annotation) or "field(" in norm_src(st.value or st.annotation):
+                        raise NotPolynomial("special field declaration in " + cls.qualname)
+                    fields.append(st.target.id)
+                    if st.value is not None:
+                        defaults[st.target.id] = st.value
+                elif isinstance(st, ast.Assign):
+                    raise NotPolynomial("class-level assignment in the record class " + cls.qualname)
+            vals = self._bind_fields(cls.qualname, fields, defaults, args, kwargs, cls)
+            return ObjVal(cls, vals, tuple_like=(kind == "namedtuple"))
+        obj = ObjVal(cls, {})
+        if kind == "plain":
+            if args or kwargs:
+                raise NotPolynomial("arguments for a class without constructor " + cls.qualname)
+            return obj
+        init = self._method(cls, "__init__")
+        if init is None or init[1] != "method":
+            raise NotPolynomial("constructor of " + cls.qualname)
+        isc = init[0]
+        for n in (x for st in isc.node.body for x in ast.walk(st)):
+            if isinstance(n, (ast.If, ast.For, ast.While, ast.Try, ast.With, ast.Return, ast.FunctionDef, ast.Lambda, ast.Global, ast.Nonlocal)):
+                raise NotPolynomial("control flow in the constructor " + isc.qualname)
+        if len(self._stack) >= self.max_depth or isc in self._stack:
+            raise NotPolynomial("call depth / recursion at " + isc.qualname)
+        env = self.bind(FuncRef(isc, None, (obj,)), args, kwargs)
+        obj.open_ = True
+        self._stack.append(isc)
+        try:
+            if self.block(isc.node.body, env, isc) is not _FALL:
+                raise NotPolynomial("constructor returns a value: " + isc.qualname)
+        finally:
+            self._stack.pop()
+            obj.open_ = False
+        if self.on_inline is not None:
+            self.on_inline(isc)
+        return obj
+
+    def _bind_fields(self, label, fields, defaults, args, kwargs, cls=None):
+        if len(args) > len(fields):
+            raise NotPolynomial("too many arguments for " + label)
+        vals = dict(zip(fields, args))
+        for k, v in kwargs.items():
+            if k in vals or k not in fields:
+                raise NotPolynomial(f"bad keyword argument {k} for {label}")
+            vals[k] = v
+        out = {}
+        for f in fields:
+            if f in vals:
+                out[f] = vals[f]
+            elif f in defaults:
+                out[f] = self.ev(defaults[f], Env(), cls)
+            else:
+                raise NotPolynomial(f"missing field {f} for {label}")
+        return out
+
+    def getattr_obj(self, obj: ObjVal, attr):
+        if attr in obj.fields:
+            return obj.fields[attr]
+        if obj.cls is not None:
+            m = self._method(obj.cls, attr)
+            if m is not None:
+                fsc, deco = m
+                if deco == "staticmethod":
+                    return FuncRef(fsc, None)
+                if deco == "classmethod":
+                    return FuncRef(fsc, None, (ClassRef(scope=obj.cls),))
+                if deco == "property":
+                    r = self.apply(FuncRef(fsc, None, (obj,)), [], {})
+                    if self.on_inline is not None:
+                        self.on_inline(fsc)
+                    return r
+                return FuncRef(fsc, None, (obj,))
+        raise NotPolynomial(f"attribute {attr} of an instance of {obj.cls.qualname if obj.cls else 'a namedtuple'}")
 
     def _field(self, base, key):
         """structured atom for attribute / constant index on an opaque atom"""
@@ -541,18 +826,26 @@ class SymEval(PiecewiseEval):
             root = e
             while isinstance(root, (ast.Attribute, ast.Subscript)):
                 root = root.value
+            if isinstance(root, ast.Name) and not env.lookup(root.id)[0] and isinstance(e.value, ast.Name) \
+                    and self._module_const(root.id, scope) is None and self._module_instance(root.id, scope) is not None:
+                return self.getattr_obj(self._module_instance(root.id, scope), e.attr)
             if not (isinstance(root, ast.Name) and not env.lookup(root.id)[0]):
                 # rooted at a local / parameter / call result: a field of an opaque structured value
                 base = self.ev(e.value, env, scope)
+                if isinstance(base, ObjVal):
+                    return self.getattr_obj(base, e.attr)
                 if isinstance(base, PW) and e.attr in ("T", "real"):
                     return base             # transpose / real part of a real vector or scalar
                 if isinstance(base, PW):
                     return self.lift(lambda p: (self._index_atom(p.value, e.attr), t_fn("." + e.attr, p.term)), base)
                 raise NotPolynomial("attribute of " + type(base).__name__)
             if scope is not None:
-                fs = [v for v in self.repo.resolve(e, scope) if isinstance(v, FuncVal)]
+                vals = self.repo.resolve(e, scope)
+                fs = [v for v in vals if isinstance(v, FuncVal)]
                 if len(fs) == 1:
                     return FuncRef(fs[0].scope, None)
+                if not fs and self._class_ref(vals) is not None:
+                    return self._class_ref(vals)
                 if isinstance(e.value, ast.Name):
                     # constant of another project module (Mod.const)
                     from optilint.model import ModVal
@@ -624,11 +917,21 @@ class SymEval(PiecewiseEval):
                 k = idx.value
             elif isinstance(idx, ast.UnaryOp) and isinstance(idx.op, ast.USub) and isinstance(idx.operand, ast.Constant):
                 k = -idx.operand.value
+            if isinstance(base, ObjVal):
+                if not base.tuple_like:
+                    raise NotPolynomial("subscript of a helper-class instance")
+                base = TupleVal(list(base.fields.values()))
             if isinstance(base, TupleVal) and k is not None:
                 try:
                     return base.items[k]
                 except IndexError:
                     raise NotPolynomial("index out of range")
+            if isinstance(base, TupleVal) and k is None and not isinstance(idx, ast.Slice):
+                # literal sequence indexed by a computed integer (array([a, b, c])[branch]): in-range literal indices only
+                ip = self._int_pieces(self.ev(idx, env, scope))
+                if ip is None or not all(0 <= j < len(base.items) for (_, j) in ip):
+                    raise NotPolynomial("subscript " + norm_src(e))
+                return self._dispatch(ip, lambda j: base.items[j])
             if k is not None and isinstance(base, PW):
                 return self.lift(lambda p: (self._index_atom(p.value, k), t_fn(f"[{k}]", p.term)), base)
             raise NotPolynomial("subscript " + norm_src(e))
@@ -700,7 +1003,7 @@ class SymEval(PiecewiseEval):
             root = e.func.value
             while isinstance(root, (ast.Attribute, ast.Subscript)):
                 root = root.value
-            if isinstance(root, ast.Name) and env.lookup(root.id)[0]:
+            if isinstance(root, ast.Name) and env.lookup(root.id)[0] and not isinstance(env.lookup(root.id)[1], ObjVal):
                 # array method on a local value: x.dot(y) == dot(x, y)
                 e2 = ast.Call(func=ast.Name(id=e.func.attr, ctx=ast.Load()), args=[e.func.value] + list(e.args), keywords=e.keywords)
                 r = self._primitive(e.func.attr, e2, env, scope)
@@ -711,7 +1014,39 @@ class SymEval(PiecewiseEval):
             if r is not NotImplemented:
                 return r
             return self._opaque_call(prim, e, env, scope)
+        if isinstance(e.func, ast.Attribute) and e.func.attr == "_replace" and not e.args:
+            rootn = e.func.value
+            if isinstance(rootn, ast.Name) and env.lookup(rootn.id)[0] and isinstance(env.lookup(rootn.id)[1], ObjVal) \
+                    and env.lookup(rootn.id)[1].tuple_like:
+                o = env.lookup(rootn.id)[1]
+                new = dict(o.fields)
+                for k in e.keywords:
+                    if k.arg not in new:
+                        raise NotPolynomial(f"_replace of an unknown field {k.arg}")
+                    new[k.arg] = self.ev(k.value, env, scope)
+                return ObjVal(o.cls, new, tuple_like=True)
         fv = self.ev(e.func, env, scope) if isinstance(e.func, (ast.Name, ast.Attribute, ast.Lambda)) else None
+        if isinstance(e.func, ast.Call):
+            # Helper(params)(x), make_branch(k)(x): the callee is itself the result of a call
+            try:
+                fv = self.ev(e.func, env, scope)
+            except NotPolynomial:
+                fv = None
+            if not isinstance(fv, (ObjVal, FuncRef, ClassRef)):
+                fv = None
+        if isinstance(fv, ObjVal) and fv.cls is not None:
+            m = self._method(fv.cls, "__call__")
+            if m is None or m[1] != "method":
+                raise NotPolynomial("call of an instance without __call__")
+            fv = FuncRef(m[0], None, (fv,))
+        if isinstance(fv, ClassRef):
+            args = self._args(e, env, scope)
+            kwargs = {k.arg: self.ev(k.value, env, scope) for k in e.keywords}
+            label = fv.scope.qualname if fv.scope is not None else fv.nt.name
+            try:
+                return self.construct(fv, args, kwargs)
+            except NotPolynomial as ex:
+                return self._opaque_value(label, args, kwargs, why=str(ex))
         if isinstance(fv, FuncRef):
             args = self._args(e, env, scope)
             kwargs = {k.arg: self.ev(k.value, env, scope) for k in e.keywords}
@@ -853,6 +1188,8 @@ class SymEval(PiecewiseEval):
         pos = [x.arg for x in a.posonlyargs + a.args]
         kwonly = [x.arg for x in a.kwonlyargs]
         env = Env(fv.env)
+        if getattr(fv, "bound", ()):
+            args = list(fv.bound) + list(args)
         if a.vararg is not None:
             env[a.vararg.arg] = TupleVal(args[len(pos):])
             args = args[:len(pos)]
@@ -927,8 +1264,18 @@ class SymEval(PiecewiseEval):
                 ops = [E(kw["operand"])]
             c = self._as_bool(c)
             return self.select(c, self.apply(ft, ops), self.apply(ff, ops))
-        if prim == "switch" and n >= 2 and isinstance(args[1], (ast.List, ast.Tuple)):
-            return NotImplemented
+        if prim == "switch" and n >= 2 and not kw:
+            # lax.switch(index, branches, *operands): the index is clamped into range; every value the index takes must be an
+            # integer literal selected by understood predicates (where / masks / comparisons), else the call stays opaque
+            br = E(args[1])
+            if not (isinstance(br, TupleVal) and br.items and all(isinstance(b, FuncRef) for b in br.items)):
+                return NotImplemented
+            idx = self._int_pieces(E(args[0]))
+            if idx is None:
+                return NotImplemented
+            ops = [E(a) for a in args[2:]]
+            nb = len(br.items)
+            return self._dispatch(idx, lambda k: self.apply(br.items[min(max(k, 0), nb - 1)], ops))
         if prim in ("abs", "fabs", "absolute") and n == 1:
             return self._abs(self._as_pw(E(args[0])))
         if prim in ("minimum", "maximum", "fmin", "fmax", "min", "max") and n == 2:
@@ -1078,10 +1425,18 @@ class SymEval(PiecewiseEval):
         if isinstance(target, ast.Name):
             env[target.id] = value
             return
+        if isinstance(target, ast.Attribute) and isinstance(target.value, ast.Name):
+            ok, o = env.lookup(target.value.id)
+            if ok and isinstance(o, ObjVal) and o.open_ and not o.tuple_like:
+                o.fields[target.attr] = value
+                return
+            raise NotPolynomial("attribute assignment " + norm_src(target))
         if isinstance(target, (ast.Tuple, ast.List)):
             n = len(target.elts)
             if any(isinstance(t, ast.Starred) for t in target.elts):
                 raise NotPolynomial("starred assignment target")
+            if isinstance(value, ObjVal) and value.tuple_like:
+                value = TupleVal(list(value.fields.values()))
             if isinstance(value, TupleVal):
                 if len(value.items) != n:
                     raise NotPolynomial("unpacking arity")
@@ -1097,6 +1452,12 @@ class SymEval(PiecewiseEval):
     def block(self, stmts, env, scope):
         for i, st in enumerate(stmts):
             if isinstance(st, ast.Expr):
+                if not isinstance(st.value, ast.Constant):
+                    # a bare call that can reach a symbolically constructed instance may change its state (self._setup(),
+                    # helper.rescale(2), super().__init__()): not modelled, so the enclosing function is not understood
+                    for n in ast.walk(st.value):
+                        if isinstance(n, ast.Name) and (n.id == "super" or isinstance(env.lookup(n.id)[1], ObjVal)):
+                            raise NotPolynomial("statement with a possible effect on an instance: " + norm_src(st)[:60])
                 continue            # docstrings, bare calls (logging): no effect on the returned value
             if isinstance(st, (ast.Pass, ast.Assert, ast.Import, ast.ImportFrom)):
                 continue
